@@ -47,6 +47,7 @@ def plan(tier, seed):
     for k in range(m):
         cases.append({"kind": "plumbing", "seed": seed, "k": k})
     cases.append({"kind": "genotype_default", "seed": seed})
+    cases.append({"kind": "vcf_male", "seed": seed})
     return cases
 
 
@@ -390,6 +391,52 @@ def _run_plumbing(case, res):
               "estimate_cn modified the catalogue's configurations")
 
 
+def _run_vcf_male(case, res):
+    """VCF input: copy-number calling is unavailable; a male sample's X-linked gene has one copy."""
+    import os
+
+    import aldy.cn
+    from aldy.genotype import genotype
+
+    from ..gen import vcfgen
+
+    got = []
+    orig = aldy.cn.estimate_cn
+
+    class Stop(Exception):
+        pass
+
+    def wrap(gene, profile, coverage, solver, debug=None):
+        out = orig(gene, profile, coverage, solver, debug)
+        got.append(out)
+        raise Stop()
+
+    aldy.cn.estimate_cn = wrap
+    try:
+        for gname, genome in (("g6pd", "hg19"), ("g6pd", "hg38"), ("cyp2c19", "hg19")):
+            g = tables.gene(gname, genome)
+            p = min(g.chr_to_ref) + 50
+            vcf = vcfgen.write_vcf(os.path.join(util.scratch_dir(), f"male_{gname}.vcf"), g.chr,
+                                   max(g.chr_to_ref) + 1000, [(p + 1, g[p], ["A" if g[p] != "A" else "C"], ["0/0"])])
+            for male in (False, True, "1"):
+                del got[:]
+                try:
+                    genotype(gname, vcf, None, None, genome=genome, male=male)
+                except Stop:
+                    pass
+                is_male = male in (True, "1")
+                exp = 1 if (is_male and g.chr in ("X", "Y")) else 2
+                ok = bool(got) and len(got[0]) == 1 and dict(got[0][0].solution) == {"1": exp}
+                res.check("default_two_copies", ok,
+                          "VCF input: structure is not the default copies (one for a male sample's X-linked gene)",
+                          mech="vcf-male-x-two-copies" if (is_male and g.chr in ("X", "Y") and got
+                                                           and dict(got[0][0].solution) == {"1": 2}) else None,
+                          gene=gname, genome=genome, male=repr(male), expected=exp,
+                          got=[dict(o.solution) for o in got[0]] if got else None)
+    finally:
+        aldy.cn.estimate_cn = orig
+
+
 def run(case):
     util.import_aldy()
     lpmon.install()
@@ -422,6 +469,9 @@ def run(case):
     elif kind == "genotype_default":
         _run_genotype_default(case, res)
         res.fp, res.nontrivial = "genotype_default", True
+    elif kind == "vcf_male":
+        _run_vcf_male(case, res)
+        res.fp, res.nontrivial = "vcf_male", True
     return res
 
 
